@@ -109,15 +109,12 @@ template<class T> static void props(const char* nm, bool series, const T& t, dou
       // far-side equator: the point lies on the cut, both sheets (x, +-y, +-gamma) are its images (the code documents the southern one)
       if (alat == 0 && backside && (r.y < 0) != (oy < 0)) { oy = -oy; og = -og; }
       double dist = std::hypot(r.x - ox, r.y - oy);
-      // finding F90 (open): the exact form builds EllipticFunction(_mv) from _mv = 1 - e^2 alone, which recomputes k'^2 = 1 - _mv with a relative
-      // error eps/e^2; beyond the branch point the coordinates inherit it.  Class, decided independently of the size of the violation's excess:
-      // exact form, e^2 <= 1e-4, |lon - lon0| >= 90(1 - 2e), a discrepancy of the position not larger than (eps/e^2)/8 times |(x, y)|, and (for gamma, k) a discrepancy not larger than eps/e^2
-      double mu = f * (2 - f); bool f90 = !series && f > 0 && mu <= 1e-4 && ad >= 90 * (1 - 2 * e) && dist <= EPS / mu / 8 * std::hypot(r.x, r.y);
-      std::string cls = f90 ? " [class:exact-kp2-cancellation e^2 = " + sg(mu) + "]" : "";
-      if (!(dist <= tl.pos())) bad("gauss-krueger-" + N, "position differs from the independent evaluation of the Gauss-Krueger mapping by " + s9(dist) + " (tolerance " + s9(tl.pos()) + "), dx = " + sg(r.x - ox) + " dy = " + sg(r.y - oy) + cls);
+      // (finding F90, repaired in /repo 5c8be26: the complementary parameter of the second EllipticFunction object is passed explicitly; no class is left,
+      //  a regression alarms here; the constructor state itself is checked by op tmxc)
+      if (!(dist <= tl.pos())) bad("gauss-krueger-" + N, "position differs from the independent evaluation of the Gauss-Krueger mapping by " + s9(dist) + " (tolerance " + s9(tl.pos()) + "), dx = " + sg(r.x - ox) + " dy = " + sg(r.y - oy));
       double tz = double(o.sens) * (tl.round + 16 * tl.trunc) / k0 + 64 * EPS;
-      if (!(angd(r.g, og) <= tz / Math::degree() + 4e-14)) bad("convergence-" + N, "gamma differs from -arg of the derivative of the mapping by " + sg(std::remainder(r.g - og, 360.0)) + " deg (tolerance " + sg(tz / Math::degree() + 4e-14) + ")" + (angd(r.g, og) * Math::degree() <= EPS / mu ? cls : ""));
-      if (!(std::fabs(r.k / ok - 1) <= tz)) bad("scale-" + N, "k differs from the magnification of the mapping: k/k_oracle - 1 = " + sg(r.k / ok - 1) + " (tolerance " + sg(tz) + ")" + (std::fabs(r.k / ok - 1) <= EPS / mu ? cls : ""));
+      if (!(angd(r.g, og) <= tz / Math::degree() + 4e-14)) bad("convergence-" + N, "gamma differs from -arg of the derivative of the mapping by " + sg(std::remainder(r.g - og, 360.0)) + " deg (tolerance " + sg(tz / Math::degree() + 4e-14) + ")");
+      if (!(std::fabs(r.k / ok - 1) <= tz)) bad("scale-" + N, "k differs from the magnification of the mapping: k/k_oracle - 1 = " + sg(r.k / ok - 1) + " (tolerance " + sg(tz) + ")");
     } else stat("oracle-not-converged");
   }
   // ---- central meridian and equator
